@@ -16,6 +16,10 @@ CORPUS = [
     ("", "SELECT a FROM t JOIN u ON a = b"),
     ("", "SELECT a FROM t GROUP BY a"),
     ("", "SELECT a IN (1, 2)"),
+    # single-element lists: deleting the element leaves an empty bracketed list
+    ("", "SELECT a IN (1)"),
+    ("", "SELECT f(a)"),
+    ("", "SELECT (a)"),
     ("", "SELECT a BETWEEN 1 AND 2"),
     ("", "SELECT CASE WHEN a THEN 1 END"),
     ("", "SELECT CAST(a AS INT)"),
